@@ -32,6 +32,9 @@ ENTRIES = ["string", "assemble", "patch", "cli", "cli-sfc"]
 FAULTS = {
     "invalid-character": ["$"],
     "unterminated-string": [".ascii 'abc"],
+    "unterminated-string-escaped-quote": [".ascii 'abc\\'"],           # the only quote after the opening one is escaped
+    "unterminated-string-two-escaped-quotes": [".text 'a\\'b\\'"],
+    "unterminated-string-backslash": [".ascii 'abc\\"],
     "truncated-operand": ["lda #"],
     "unbalanced-brace": ["}"],
     "unknown-keyword": [".bogus 1"],
